@@ -87,6 +87,17 @@ func (context *CHFContext) NewCHFUe(supi string) (*ChfUe, error) {
 	}
 }
 
+// NewLocalRecordSequenceNumber allocates the next local record sequence number.
+// The increment and the read of the allocated value happen in one critical section,
+// so no two callers ever obtain the same number.
+func (c *CHFContext) NewLocalRecordSequenceNumber() uint64 {
+	c.Lock()
+	defer c.Unlock()
+
+	c.LocalRecordSequenceNumber++
+	return c.LocalRecordSequenceNumber
+}
+
 func (context *CHFContext) ChfUeFindBySupi(supi string) (*ChfUe, bool) {
 	if value, ok := context.UePool.Load(supi); ok {
 		return value.(*ChfUe), ok
